@@ -24,6 +24,7 @@ from ..template import Evaluator, TStr, Lit, Hole, AltS, RepS, FqnS, CommentS, O
 from ..mutation import Mutations, is_fresh
 from ..flow import atomic_facts
 from .c18 import const_str
+from ..strshape import Shapes
 from .c20 import variants
 
 SHELL_TAINT = ('copyright', 'creator_info')
@@ -527,34 +528,17 @@ def _every_line_map(ctx, fn: FuncInfo, e: ast.AST, src: str) -> Tuple[bool, str]
     return False, f'`{ast.unparse(e)[:50]}` is not a per-line map of the whole list'
 
 
-def _starts_with_glyph(ctx, fn: FuncInfo, v: ast.AST) -> Tuple[bool, str]:
-    if not isinstance(v, ast.JoinedStr) or not v.values or not isinstance(v.values[0], ast.FormattedValue):
-        return False, f'bullet prefix `{ast.unparse(v)[:50]}` does not start with the glyph'
-    first = v.values[0]
-    src = _resolve(ctx, fn, first.value)
-    txt = ast.unparse(first.value)
-    ok_src = 'bullet_list.glyph' in txt
-    if not ok_src and isinstance(src, ast.JoinedStr) and src.values and isinstance(src.values[0], ast.FormattedValue) \
-            and 'bullet_list.glyph' in ast.unparse(src.values[0].value):
-        ok_src = True
-    if not ok_src:
-        return False, f'bullet prefix starts with `{txt}`, not with the configured glyph'
-    spec = first.format_spec
-    if spec is not None:
-        s0 = spec.values[0].value if spec.values and isinstance(spec.values[0], ast.Constant) else ''
-        s0 = str(s0)
-        # [[fill]align]: only left alignment, or padding with blanks (stripped afterwards), keeps the glyph first
-        if len(s0) >= 2 and s0[1] in '<>^=':
-            fill, align = s0[0], s0[1]
-        elif s0[:1] in ('<', '>', '^', '='):
-            fill, align = ' ', s0[0]
-        else:
-            fill, align = ' ', '<'
-        if align != '<' and fill != ' ':
-            return False, f'bullet prefix is padded on the left with {fill!r}: lines no longer start with the glyph'
-        if align != '<':
-            return False, f'bullet prefix is aligned `{align}`: the glyph is preceded by padding'
-    return True, 'bullet prefix starts with the configured glyph'
+def _starts_with_glyph(ctx, fn: FuncInfo, v: ast.AST) -> Tuple[Optional[bool], str]:
+    """Abstract interpretation of the prefix expression (dznverif.strshape): what does the string start with?"""
+    sh = Shapes(fn.node, lambda name: const_str(ctx, fn, ast.Name(id=name, ctx=ast.Load())))
+    a = sh.string(v)
+    if a is None:
+        return None, f'bullet prefix expression `{ast.unparse(v)[:60]}` is outside the modelled string sub-language'
+    if a.starts == 'glyph':
+        return True, 'bullet prefix starts with the configured glyph'
+    if not a.has_glyph:
+        return False, f'bullet prefix `{ast.unparse(v)[:50]}` does not contain the configured glyph'
+    return False, f'bullet prefix `{ast.unparse(v)[:50]}` does not start with the glyph (it starts with {a.starts or "padding"})'
 
 
 def _split_rule(ctx, app: FuncInfo):
